@@ -47,6 +47,7 @@ type offer struct {
 	Disp     string // batch only: literal Content-Disposition (malformed-name cases)
 	TrueRef  string // ref of the true blob this offer was derived from
 	Boundary string // 16 MiB boundary label, if any
+	TermErr  error  // term / term-withdata readers: what the source reports instead of io.EOF after all of Data
 }
 
 type trueBlob struct {
@@ -60,11 +61,24 @@ var hashNames = []string{"sha224", "sha1", "sha256"}
 
 // genTrue returns the i-th true blob of a session.
 func genTrue(rng *rand.Rand, i int, size int, seen map[blob.Ref]bool) trueBlob {
+	return genTrueKind(rng, i, size, seen, "")
+}
+
+// genTrueKind is genTrue with the content kind fixed ("" = seeded choice).  Kind "file" is a
+// "file" schema blob without parts: the stores that sniff uploads for schema blobs (blobpacked,
+// cond) take their schema branch for it.
+func genTrueKind(rng *rand.Rand, i int, size int, seen map[blob.Ref]bool, force string) trueBlob {
 	for {
 		var data []byte
 		kind := []string{"random", "random", "schema", "text", "zeros"}[rng.Intn(5)]
+		if force != "" {
+			kind = force
+		}
 		if size < 80 && (kind == "schema" || kind == "text") {
 			kind = "random"
+		}
+		if size < 120 && kind == "file" {
+			size = 120
 		}
 		switch kind {
 		case "random":
@@ -83,6 +97,13 @@ func genTrue(rng *rand.Rand, i int, size int, seen map[blob.Ref]bool) trueBlob {
 				pad = 0
 			}
 			data = []byte(s + strings.Repeat("p", pad) + "\"\n}")
+		case "file":
+			s := fmt.Sprintf("{\"camliVersion\": 1,\n  \"camliType\": \"file\",\n  \"parts\": [],\n  \"fileName\": \"verif-%d-", rng.Int63())
+			pad := size - len(s) - 3
+			if pad < 0 {
+				pad = 0
+			}
+			data = []byte(s + strings.Repeat("f", pad) + "\"\n}")
 		default:
 			s := fmt.Sprintf("text blob %d ", rng.Int63())
 			pad := size - len(s)
@@ -239,6 +260,16 @@ func readErrorOffers(rng *rand.Rand, tb trueBlob) []*offer {
 		out = append(out, &offer{Ref: tb.Ref, RefStr: tb.Ref.String(), Data: tb.Data, Mut: "read-error", Arg: fmt.Sprintf("source fails after %d of %d bytes", k, n),
 			Want: wantReject, Reader: kind, ErrAt: k, TrueRef: tb.Ref.String()})
 	}
+	if n >= 2 {
+		// the failure is reported once; a consumer that reads on afterwards sees a clean end of a prefix
+		k := n / 2
+		out = append(out, &offer{Ref: tb.Ref, RefStr: tb.Ref.String(), Data: tb.Data, Mut: "read-error", Arg: fmt.Sprintf("source fails once after %d of %d bytes, then reports EOF", k, n),
+			Want: wantReject, Reader: "errk-once", ErrAt: k, TrueRef: tb.Ref.String()})
+	}
+	// every byte is delivered, but the source ends in a failure instead of io.EOF: whoever consumes the
+	// stream (a sniffing or buffering store included) must not take the bytes it has for the blob
+	out = append(out, &offer{Ref: tb.Ref, RefStr: tb.Ref.String(), Data: tb.Data, Mut: "read-error", Arg: fmt.Sprintf("source delivers all %d bytes, then fails instead of EOF", n),
+		Want: wantReject, Reader: "errk", ErrAt: n, TrueRef: tb.Ref.String()})
 	return out
 }
 
@@ -297,6 +328,22 @@ func (e *errAfter) Read(p []byte) (int, error) {
 	return n, err
 }
 
+// errOnce delivers its data, fails with err exactly once and reports io.EOF from then on.
+type errOnce struct {
+	r    io.Reader
+	err  error
+	done bool
+}
+
+func (e *errOnce) Read(p []byte) (int, error) {
+	n, err := e.r.Read(p)
+	if err == io.EOF && !e.done {
+		e.done = true
+		err = e.err
+	}
+	return n, err
+}
+
 // plainReader hides WriterTo/Len so every kind goes through Read.
 type plainReader struct{ r io.Reader }
 
@@ -324,6 +371,8 @@ func mkReader(kind string, data []byte, errAt int, rng *rand.Rand) io.Reader {
 		return &zeroReader{r: base}
 	case "errk":
 		return &errAfter{r: bytes.NewReader(data[:errAt]), err: errSource}
+	case "errk-once":
+		return &errOnce{r: bytes.NewReader(data[:errAt]), err: errSource}
 	case "errk-eofwrap":
 		return &errAfter{r: bytes.NewReader(data[:errAt]), err: fmt.Errorf("verif: injected source error wrapping EOF: %w", io.EOF)}
 	}
